@@ -1,4 +1,5 @@
 import Irismod.Props.C03
+import Irismod.Proofs.HtlcMonitor
 open Irismod Irismod.Sdk Irismod.Htlc Irismod.Spec.C03 Irismod.Spec.C04 Irismod.Props.C03
 #print axioms inv_init
 #print axioms inv_reachable
@@ -32,6 +33,13 @@ open Irismod Irismod.Sdk Irismod.Htlc Irismod.Spec.C03 Irismod.Spec.C04 Irismod.
 #print axioms no_open_past_expiry
 
 
+-- monitor soundness: the clauses drv-htlc evaluates hold on every model step (Proofs/HtlcMonitor.lean)
+#print axioms Irismod.Proofs.HtlcMonitor.monitorC03_sound
+#print axioms Irismod.Proofs.HtlcMonitor.resetC03_sound
+#print axioms Irismod.Proofs.HtlcMonitor.ledger_apply
 -- non-vacuity: a history from a state satisfying `Inv` (inv_init) through create / claim (right, wrong, repeated) / expiry
 -- reaches completed and refunded contracts, the recipient and the senders were paid exactly once, the queue is empty
 #eval s!"nonvacuous {Demo.st Demo.inId == some .completed && Demo.st Demo.plainId == some .refunded && Demo.st Demo.outId == some .refunded && Bank.balOf Demo.final.bank "A0" "stake" == 100 && Bank.balOf Demo.final.bank "A2" "htltaaa" == 40 && Bank.balOf Demo.final.bank "M" "stake" == 0 && Demo.final.queue.isEmpty && queueOk Demo.final && queueFutureOk Demo.final && Demo.final.height == 71}"
+
+-- the monitor evaluated on the model's own run of the demo history: no clause fails (instance of monitorC03_sound)
+#eval s!"nonvacuous {(Demo.ops.foldl (fun (acc : State × Bool) op => (apply acc.1 op, acc.2 && (Spec.C03.stepFails true acc.1 op (Irismod.Proofs.HtlcMonitor.acceptedB acc.1 op) (Irismod.Proofs.HtlcMonitor.panickedB acc.1 op) (apply acc.1 op)).isEmpty && (Spec.C03.stepFails13 true acc.1 op (Irismod.Proofs.HtlcMonitor.acceptedB acc.1 op) (Irismod.Proofs.HtlcMonitor.panickedB acc.1 op) (apply acc.1 op)).isEmpty)) (Demo.s0, true)).2}"
